@@ -182,6 +182,10 @@ theorem inv_step (s s' : St) (a : Act) (hI : Inv s) (hs : step s a = some s') : 
     obtain ⟨hc, hr, hp, ha⟩ := hI
     simp [step] at hs; subst hs
     refine ⟨hc, ?_, ?_, ?_⟩ <;> grind
+  | localStart =>
+    obtain ⟨hc, hr, hp, ha⟩ := hI
+    simp [step] at hs; subst hs
+    refine ⟨hc, ?_, ?_, ?_⟩ <;> grind
   | expire =>
     obtain ⟨hc, hr, hp, ha⟩ := hI
     simp only [step] at hs
@@ -276,6 +280,7 @@ theorem refused_only_bad_step (s s' : St) (a : Act) (hs : step s a = some s')
     · simp at hs
     · split at hs <;> (simp at hs; subst hs; exact h)
   | localSet => simp [step] at hs; subst hs; exact h
+  | localStart => simp [step] at hs; subst hs; exact h
   | flush =>
     simp only [step] at hs
     split at hs
@@ -343,6 +348,143 @@ theorem c01_quiescent_good_exactly_once (as : List Act) (hq : Quiescent (run {} 
 flush (a pending flush, an unanswered request, or a thread that has not finished). -/
 theorem c01_no_strand (as : List Act) (h : (run {} as).parked ≠ []) : ¬ Quiescent (run {} as) :=
   fun hq => h (c01_quiescent_exactly_once as hq).1
+
+/-! ### a run started on this server (`CreateProtocol` / `StartProtocol`) while messages of the tree are parked -/
+
+/-- one step keeps "whoever lists an instance of the tree holds the tree" -/
+theorem insts_tree_step (s s' : St) (a : Act) (h : s.insts ≠ [] → s.tree = .present) (hs : step s a = some s') :
+    s'.insts ≠ [] → s'.tree = .present := by
+  cases a with
+  | arrive m => simp [step] at hs; subst hs; exact h
+  | respond =>
+    simp only [step] at hs
+    split at hs
+    · simp at hs
+    · split at hs
+      · simp at hs; subst hs; intro _; rfl
+      · simp at hs; subst hs; exact h
+  | localSet => simp [step] at hs; subst hs; intro _; rfl
+  | localStart => simp [step] at hs; subst hs; intro _; rfl
+  | flush =>
+    simp only [step] at hs
+    split at hs
+    · simp at hs
+    · simp at hs; subst hs; exact h
+  | expire =>
+    simp only [step] at hs
+    split at hs
+    · simp at hs; subst hs; intro hne; exact absurd rfl hne
+    · simp at hs
+  | thread i =>
+    simp only [step] at hs
+    split at hs
+    · rename_i t _
+      split at hs
+      · simp at hs
+      · simp at hs; subst hs
+        obtain ⟨m0, pc0⟩ := t
+        cases pc0 <;> simp only [stepTh]
+        · split
+          · rename_i hpr
+            cases hb : bad m0
+            · simp only [Bool.false_eq_true, if_false]; intro _; exact hpr
+            · simpa using h
+          · exact h
+        · exact h
+        · split <;> exact h
+        · split <;> exact h
+        · intro hne
+          have := h hne
+          simp [this]
+        · exact h
+        · exact h
+    · simp at hs
+
+theorem insts_tree_run (as : List Act) (s : St) (h : s.insts ≠ [] → s.tree = .present) :
+    (run s as).insts ≠ [] → (run s as).tree = .present := by
+  induction as generalizing s with
+  | nil => exact h
+  | cons a as ih =>
+    simp only [run]
+    split
+    · exact ih _ (insts_tree_step _ _ _ h ‹_›)
+    · exact ih _ h
+
+/-- **a server that lists an instance of a run on the tree holds the tree** — under every schedule, whether the
+instance was created by the first message of a peer's run or started on this server while the tree was unknown,
+requested from a peer, or known. -/
+theorem c01_listed_instance_has_tree (as : List Act) (h : (run {} as).insts ≠ []) : (run {} as).tree = .present :=
+  insts_tree_run as {} (by simp) h
+
+/-- **starting a run registers the tree**, whatever the store held for it: the instance is listed, the tree is
+stored — also when it was only *requested* — and a flush of the parked messages is spawned; nothing is parked,
+handed over or dropped by the start itself. -/
+theorem c01_local_start_registers (s : St) :
+    ∃ s', step s .localStart = some s' ∧ localTok ∈ s'.insts ∧ s'.tree = .present ∧ s'.flushes = s.flushes + 1 ∧
+      s'.parked = s.parked ∧ s'.delivered = s.delivered ∧ s'.arrived = s.arrived ∧ s'.thr = s.thr := by
+  refine ⟨_, rfl, ?_, rfl, rfl, rfl, rfl, rfl, rfl⟩
+  show localTok ∈ (if s.insts.contains localTok then s.insts else s.insts ++ [localTok])
+  by_cases hc : s.insts.contains localTok = true
+  · rw [if_pos hc]; simpa using hc
+  · rw [if_neg hc]; simp
+
+/-- **a server that runs an instance on the tree answers the tree requests of its peers**: the children of a
+run started here hear of the tree from this server only (`handleRequestTree` answers iff the tree is stored);
+holds from the start of the run until the tree is released, under every schedule. -/
+theorem c01_started_run_answers_tree_requests (as : List Act) (h : localTok ∈ (run {} as).insts) :
+    answersTreeRequest (run {} as) = true := by
+  have := c01_listed_instance_has_tree as (List.ne_nil_of_mem h)
+  simp [answersTreeRequest, this]
+
+/-- **messages parked on a server that runs an instance on their tree do not wait for a peer's answer**: once the
+flushes have run and the arrival threads have finished nothing is parked — however many tree requests are still
+unanswered (`reqs` is not constrained). -/
+theorem c01_started_run_needs_no_answer (as : List Act) (hi : (run {} as).insts ≠ [])
+    (hf : (run {} as).flushes = 0) (ht : ∀ t ∈ (run {} as).thr, t.pc = .done) : (run {} as).parked = [] := by
+  have hI := inv_run as {} inv_init
+  have hpres := c01_listed_instance_has_tree as hi
+  generalize run {} as = s at *
+  apply Classical.byContradiction; intro hne
+  have h4 : s.thr.countP (at_ .recheck) = 0 := by
+    rw [List.countP_eq_zero]
+    intro t htm
+    simp [at_, ht t htm]
+  have := hI.pres hpres hne
+  omega
+
+/-- non-vacuity: message 1 arrives for an unknown tree, is parked, its thread marks the tree requested and is about
+to send the request; a run is started here; the flush hands the message over; the request leaves and stays
+unanswered — nothing is parked, the peer's answer is not needed -/
+def startWhileRequested : List Act :=
+  [.arrive 1, .thread 0, .thread 0, .thread 0, .thread 0, .thread 0, .localStart, .flush, .thread 1, .thread 0]
+
+example : (run {} (startWhileRequested.take 6)).tree = .requested ∧ (run {} (startWhileRequested.take 6)).parked = [1] ∧
+    (run {} startWhileRequested).insts = [localTok, 1] ∧ (run {} startWhileRequested).delivered = [1] ∧
+    (run {} startWhileRequested).parked = [] ∧ (run {} startWhileRequested).reqs = 1 ∧
+    (run {} startWhileRequested).flushes = 0 ∧ (run {} startWhileRequested).thr.all (fun t => t.pc == .done) ∧
+    answersTreeRequest (run {} startWhileRequested) = true := by decide
+
+/-- the variant "register the tree of a new local instance only if the store does not know it" (`IsRegistered` is
+true for a tree that is only requested): the start leaves the requested entry alone and spawns no flush -/
+def stepOnce (s : St) : Act → Option St
+  | .localStart =>
+      if s.tree = .absent then step s .localStart
+      else some { s with insts := (if s.insts.contains localTok then s.insts else s.insts ++ [localTok]) }
+  | a => step s a
+
+def runOnce (s : St) : List Act → St
+  | [] => s
+  | a :: as => match stepOnce s a with
+      | some s' => runOnce s' as
+      | none => runOnce s as
+
+/-- negation witness for that variant: on the same schedule the server runs an instance on the tree, yet the tree
+is not stored (a child's tree request gets no answer) and message 1 stays parked until the peer answers -/
+theorem c01_register_once_variant_strands :
+    let s := runOnce {} startWhileRequested
+    s.insts = [localTok] ∧ s.tree = .requested ∧ answersTreeRequest s = false ∧ s.parked = [1] ∧ s.delivered = [] ∧
+      s.flushes = 0 ∧ s.thr.all (fun t => t.pc == .done) := by
+  decide
 
 /-! ### the unrepaired code (pinned commit) strands a message
 
@@ -1018,6 +1160,20 @@ theorem cons_step (s s' : St) (a : Act) (hc : Cons s) (hs : step s a = some s') 
           simp [e]; omega
       · simp at hs
     · simp at hs
+  | junk src dst =>
+    simp only [step] at hs
+    split at hs
+    · simp at hs
+    · split at hs
+      · simp at hs; subst hs; exact hc
+      · simp at hs
+  | recvJunk j =>
+    simp only [step] at hs
+    split at hs
+    · split at hs
+      · simp at hs; subst hs; exact hc
+      · simp at hs
+    · simp at hs
 
 theorem cons_run (as : List Act) (s : St) (h : Cons s) : Cons (run s as) := by
   induction as generalizing s with
@@ -1051,8 +1207,9 @@ structure Live (s : St) : Prop where
     k ∈ s.table b a ∨ (k, a, b) ∈ s.dialed ∨ ∃ t ∈ s.thr, t.src = b ∧ t.dst = a ∧ t.pc = .reg k
   /-- a pending dial: the dialler has registered the connection or is about to -/
   dialMate : ∀ k a b, (k, a, b) ∈ s.dialed → k ∈ s.table a b ∨ ∃ t ∈ s.thr, t.src = a ∧ t.dst = b ∧ t.pc = .reg k
-  /-- an envelope in flight will be received: its destination has the connection, or will have it -/
-  flightMate : ∀ f ∈ s.wire, f.k ∈ s.table f.dst f.src ∨ (f.k, f.src, f.dst) ∈ s.dialed ∨
+  /-- a frame in flight — an envelope or a frame its destination cannot decode — will be read: its destination
+  has the connection, or will have it -/
+  flightMate : ∀ f, f ∈ s.wire ∨ f ∈ s.junk → f.k ∈ s.table f.dst f.src ∨ (f.k, f.src, f.dst) ∈ s.dialed ∨
     ∃ t ∈ s.thr, t.src = f.dst ∧ t.dst = f.src ∧ t.pc = .reg f.k
 
 theorem live_init : Live {} := by
@@ -1266,8 +1423,10 @@ theorem live_thread (s : St) (i : Nat) (t : Th) (hL : Live s) (ht : s.thr[i]? = 
     refine ⟨h1, h2, h3, h4, ?_⟩
     intro f hf
     simp at hf
-    rcases hf with hf | rfl
-    · exact h5 f hf
+    rcases hf with (hf | rfl) | hf
+    · exact h5 f (.inl hf)
+    rotate_left
+    · exact h5 f (.inr hf)
     · simp only
       rcases hmate with h | h | ⟨x, hx, e1, e2, e3⟩
       · exact .inl h
@@ -1367,7 +1526,32 @@ theorem live_step (s s' : St) (a : Act) (hL : Live s) (hs : step s a = some s') 
     · split at hs
       · simp at hs; subst hs
         obtain ⟨h1, h2, h3, h4, h5⟩ := hL
-        exact ⟨h1, h2, h3, h4, fun f hf => h5 f (mem_of_mem_eraseIdx hf)⟩
+        exact ⟨h1, h2, h3, h4, fun f hf => h5 f (hf.imp mem_of_mem_eraseIdx id)⟩
+      · simp at hs
+    · simp at hs
+  | junk src dst =>
+    simp only [step] at hs
+    split at hs
+    · simp at hs
+    · split at hs
+      · rename_i k hk
+        simp at hs; subst hs
+        obtain ⟨h1, h2, h3, h4, h5⟩ := hL
+        refine ⟨h1, h2, h3, h4, ?_⟩
+        intro f hf
+        simp at hf
+        rcases hf with hf | hf | rfl
+        · exact h5 f (.inl hf)
+        · exact h5 f (.inr hf)
+        · exact h3 src dst k (List.mem_of_mem_head? hk)
+      · simp at hs
+  | recvJunk j =>
+    simp only [step] at hs
+    split at hs
+    · split at hs
+      · simp at hs; subst hs
+        obtain ⟨h1, h2, h3, h4, h5⟩ := hL
+        exact ⟨h1, h2, h3, h4, fun f hf => h5 f (hf.imp id mem_of_mem_eraseIdx)⟩
       · simp at hs
     · simp at hs
 
@@ -1383,7 +1567,7 @@ theorem live_run (as : List Act) (s : St) (h : Live s) : Live (run s as) := by
 /-- nothing can move any more: every `Send` call has returned, no listener callback is pending, no
 reception is enabled -/
 def Quiescent (s : St) : Prop :=
-  (∀ t ∈ s.thr, t.pc = .done) ∧ s.dialed = [] ∧ ∀ j, step s (.recv j) = none
+  (∀ t ∈ s.thr, t.pc = .done) ∧ s.dialed = [] ∧ (∀ j, step s (.recv j) = none) ∧ ∀ j, step s (.recvJunk j) = none
 
 /-- **nothing is stuck between two servers**: when no action is enabled any more, no envelope is in
 flight — an envelope written on a connection always finds (or will find) the receive goroutine of
@@ -1393,13 +1577,13 @@ theorem c01_net_nothing_in_flight_at_quiescence (as : List Act) (hq : Quiescent 
     (run {} as).wire = [] := by
   have hL := live_run as {} live_init
   generalize run {} as = s at *
-  obtain ⟨hd, hdl, hr⟩ := hq
+  obtain ⟨hd, hdl, hr, _⟩ := hq
   cases hw : s.wire with
   | nil => rfl
   | cons f rest =>
     exfalso
     have hf : f ∈ s.wire := by simp [hw]
-    rcases hL.flightMate f hf with h | h | ⟨x, hx, _, _, e3⟩
+    rcases hL.flightMate f (.inl hf) with h | h | ⟨x, hx, _, _, e3⟩
     · have := hr 0
       simp [step, hw, h] at this
     · simp [hdl] at h
@@ -1475,6 +1659,20 @@ theorem table_grows_step (s s' : St) (a : Act) (hs : step s a = some s') (x y : 
       · simp at hs; subst hs; exact ⟨[], by simp⟩
       · simp at hs
     · simp at hs
+  | junk src dst =>
+    simp only [step] at hs
+    split at hs
+    · simp at hs
+    · split at hs
+      · simp at hs; subst hs; exact ⟨[], by simp⟩
+      · simp at hs
+  | recvJunk j =>
+    simp only [step] at hs
+    split at hs
+    · split at hs
+      · simp at hs; subst hs; exact ⟨[], by simp⟩
+      · simp at hs
+    · simp at hs
 
 /-- **the first connection stays the first**: once server `x` has a connection with peer `y`, every
 later `Send(x → y)` uses that same connection, whatever else is dialled, accepted or registered
@@ -1508,13 +1706,159 @@ example : (run {} openBoth).dispatched = [(2, 1, 10), (1, 2, 20), (2, 1, 11), (1
     (run {} openBoth).dialed = [] ∧ (run {} openBoth).thr.all (fun t => t.pc == .done) := by decide
 
 example : Quiescent (run {} openBoth) := by
-  refine ⟨by decide, by decide, fun j => ?_⟩
-  have : (run {} openBoth).wire = [] := by decide
-  simp [step, this]
+  refine ⟨by decide, by decide, fun j => ?_, fun j => ?_⟩
+  · have : (run {} openBoth).wire = [] := by decide
+    simp [step, this]
+  · have : (run {} openBoth).junk = [] := by decide
+    simp [step, this]
 
 /-- two concurrent first sends both dial: two connections 1 → 2, later sends use the first -/
 example : (run {} [.send 1 2 10, .send 1 2 11, .thread 0, .thread 1, .thread 0, .thread 1, .thread 0, .thread 1,
       .thread 0, .thread 1, .accept 0, .accept 0, .recv 0, .recv 0]).table 1 2 = [0, 1] := by decide
+
+/-! #### frames the destination cannot decode (`handleConn`: "Temporary error, continue") -/
+
+/-- **a frame that cannot be decoded is read and dropped, nothing waits behind it**: at quiescence no such frame is
+left unread either — its connection has (or gets) its receive goroutine like every other -/
+theorem c01_net_junk_read_at_quiescence (as : List Act) (hq : Quiescent (run {} as)) : (run {} as).junk = [] := by
+  have hL := live_run as {} live_init
+  generalize run {} as = s at *
+  obtain ⟨hd, hdl, _, hr⟩ := hq
+  cases hw : s.junk with
+  | nil => rfl
+  | cons f rest =>
+    exfalso
+    have hf : f ∈ s.junk := by simp [hw]
+    rcases hL.flightMate f (.inr hf) with h | h | ⟨x, hx, _, _, e3⟩
+    · have := hr 0
+      simp [step, hw, h] at this
+    · simp [hdl] at h
+    · have := hd x hx
+      rw [this] at e3; simp at e3
+
+/-- the state without the undecodable frames -/
+def noJunk (s : St) : St := { s with junk := [] }
+/-- the two actions that write / read an undecodable frame -/
+def isJunk : Act → Bool
+  | .junk _ _ => true
+  | .recvJunk _ => true
+  | _ => false
+
+theorem stepTh_noJunk (s : St) (i : Nat) (t : Th) : stepTh (noJunk s) i t = noJunk (stepTh s i t) := by
+  obtain ⟨src, dst, v, pc⟩ := t
+  cases pc with
+  | lookup =>
+    simp only [stepTh, noJunk]
+    split
+    · rfl
+    · split <;> rfl
+  | dial => rfl
+  | reg k => rfl
+  | xmit k => rfl
+  | done => rfl
+
+theorem step_noJunk (s : St) (a : Act) (ha : isJunk a = false) : step (noJunk s) a = (step s a).map noJunk := by
+  cases a with
+  | send src dst v => rfl
+  | thread i =>
+    simp only [step]
+    have : (noJunk s).thr = s.thr := rfl
+    rw [this]
+    cases s.thr[i]? with
+    | none => rfl
+    | some t =>
+      simp only
+      split
+      · rfl
+      · simp [stepTh_noJunk]
+  | accept j =>
+    simp only [step]
+    have : (noJunk s).dialed = s.dialed := rfl
+    rw [this]
+    cases s.dialed[j]? with
+    | none => rfl
+    | some x => obtain ⟨k, a, b⟩ := x; rfl
+  | recv j =>
+    simp only [step]
+    have : (noJunk s).wire = s.wire := rfl
+    rw [this]
+    cases s.wire[j]? with
+    | none => rfl
+    | some f =>
+      simp only
+      have : (noJunk s).table = s.table := rfl
+      rw [this]
+      split <;> rfl
+  | junk src dst => simp [isJunk] at ha
+  | recvJunk j => simp [isJunk] at ha
+
+theorem step_junk_only (s s' : St) (a : Act) (ha : isJunk a = true) (hs : step s a = some s') : noJunk s' = noJunk s := by
+  cases a with
+  | send src dst v => simp [isJunk] at ha
+  | thread i => simp [isJunk] at ha
+  | accept j => simp [isJunk] at ha
+  | recv j => simp [isJunk] at ha
+  | junk src dst =>
+    simp only [step] at hs
+    split at hs
+    · simp at hs
+    · split at hs
+      · simp at hs; subst hs; rfl
+      · simp at hs
+  | recvJunk j =>
+    simp only [step] at hs
+    split at hs
+    · split at hs
+      · simp at hs; subst hs; rfl
+      · simp at hs
+    · simp at hs
+
+/-- **a well-formed frame the destination cannot decode is harmless**: under every schedule, whatever is written
+on whichever connection and read whenever, the connection tables, the envelopes in flight, the `Send` calls, what
+has been dispatched where and with which identity — everything but the undecodable frames themselves — are exactly
+what they are in the same schedule without those frames.  In particular no connection is dropped and nothing queued
+behind such a frame is lost. -/
+theorem c01_net_undecodable_frame_harmless (as : List Act) (s : St) :
+    noJunk (run s as) = run (noJunk s) (as.filter (fun a => !isJunk a)) := by
+  induction as generalizing s with
+  | nil => rfl
+  | cons a as ih =>
+    cases ha : isJunk a
+    · simp only [List.filter_cons, ha, Bool.not_false, if_true, run]
+      rw [step_noJunk s a ha]
+      cases hs : step s a with
+      | none => simpa using ih s
+      | some s' => simpa using ih s'
+    · simp only [List.filter_cons, ha, Bool.not_true, Bool.false_eq_true, if_false, run]
+      cases hs : step s a with
+      | none => simpa using ih s
+      | some s' =>
+        simp only
+        rw [ih s', step_junk_only s s' a ha hs]
+
+/-- what the dispatchers saw and the connection tables do not depend on the undecodable frames -/
+theorem c01_net_undecodable_frame_dispatch (as : List Act) :
+    (run {} as).dispatched = (run {} (as.filter (fun a => !isJunk a))).dispatched ∧
+    (run {} as).table = (run {} (as.filter (fun a => !isJunk a))).table ∧
+    (run {} as).wire = (run {} (as.filter (fun a => !isJunk a))).wire := by
+  have h := c01_net_undecodable_frame_harmless as {}
+  have e : noJunk ({} : St) = {} := rfl
+  rw [e] at h
+  refine ⟨?_, ?_, ?_⟩
+  · exact (congrArg St.dispatched h : (noJunk (run {} as)).dispatched = _)
+  · exact (congrArg St.table h : (noJunk (run {} as)).table = _)
+  · exact (congrArg St.wire h : (noJunk (run {} as)).wire = _)
+
+/-- non-vacuity: 10 is in flight from server 1 to server 2, an undecodable frame and then 11 are written behind it on
+the same connection; everything is read: 10 and 11 are dispatched at server 2, the connection is still the one both
+tables hold, nothing is left -/
+def junkBetween : List Act :=
+  [.send 1 2 10, .thread 0, .thread 0, .thread 0, .thread 0, .junk 1 2, .send 1 2 11, .thread 1, .thread 1,
+   .accept 0, .recv 0, .recvJunk 0, .recv 0]
+
+example : (run {} (junkBetween.take 9)).junk = [⟨0, 1, 2, 0⟩] ∧ (run {} (junkBetween.take 9)).wire = [⟨0, 1, 2, 10⟩, ⟨0, 1, 2, 11⟩] ∧
+    (run {} junkBetween).dispatched = [(2, 1, 10), (2, 1, 11)] ∧ (run {} junkBetween).table 1 2 = [0] ∧
+    (run {} junkBetween).table 2 1 = [0] ∧ (run {} junkBetween).wire = [] ∧ (run {} junkBetween).junk = [] := by decide
 
 /-! #### the destination's dispatcher and `Overlay.Process` -/
 
